@@ -14,6 +14,7 @@ namespace Bardolph
 namespace Sim
 open Vm VmSteps Sem Gen
 
+variable {V : String → Prop}
 variable {img : Image} {K : Ctx} {stk : Stk} {fr : List Frame} {ev : List Val} {un : List Val} {σ : S} {s : State}
   {pc : Nat}
 
